@@ -55,6 +55,11 @@ func constFor(l time.Time, d time.Duration) bool {
 func bruteNext(s Sched, loc *time.Location, t time.Time) (res time.Time, ok bool, steps int) {
 	u := time.Unix(t.Unix()+1, 0) // first whole second strictly after t (t.Unix() floors)
 	limit := u.In(loc).Year() + 5
+	// an empty set contains no field value: nothing can ever match
+	if s.Second&(1<<60-1) == 0 || s.Minute&(1<<60-1) == 0 || s.Hour&(1<<24-1) == 0 || s.Month&(1<<13-2) == 0 ||
+		(s.Dom&(1<<32-2) == 0 && s.Dow&(1<<7-1) == 0) {
+		return time.Time{}, false, 0
+	}
 	for {
 		steps++
 		l := u.In(loc)
